@@ -195,7 +195,7 @@ def AliasClause : Prop :=
         genericSuffix a.genericTypes ++ s%" = " ++ ty ++
         (if a.ty.isOptional then s%" | undefined" else []) ++ s%";\n\n") ∧
   (∀ cfg a d, Kotlin.aliasFacts cfg a = .ok d →
-    (Kotlin.isInline a.decorators = false ∧ ∃ ty, d = .typeAlias a.comments (cfg.pfx ++ a.id.original)
+    (Kotlin.isInline a.decorators = false ∧ ∃ ty, d = .typeAlias a.comments (cfg.pfx ++ a.id.renamed)
         (genericSuffix a.genericTypes) ty ∧ Kotlin.formatType cfg a.genericTypes a.ty = .ok ty) ∨
     (Kotlin.isInline a.decorators = true ∧ ∃ p, Kt.params d = [p] ∧ Kt.isOptional p = a.ty.isOptional ∧
         Kotlin.formatType cfg [] (stripOption a.ty) = .ok (Kt.stripOptional p))) ∧
